@@ -166,9 +166,11 @@ def o19_7(tier):
                  (1, 1): [corner(1, 1), corner(2, 1), corner(2, 2), corner(1, 2)]}            # clockwise
         outer = [corner(0, 0), corner(0, 2), corner(2, 2), corner(2, 0)]
         V.append([X[2] + 50, Y[2] + 50])                     # a far corner, listed LAST in its region: only it makes the region oversized
-        spike = [corner(1, 2), corner(2, 2), 9]
+        spike = [corner(2, 1), corner(2, 2), 9]
+        V.append([X[2] + 0.001, Y[2]])                      # a corner one rounding step away from corner(2,2), at coordinates >= 100: a distinct vertex
+        sliver = [corner(1, 2), corner(2, 2), 10]                # thin but not degenerate
         # two oversized regions in a row (outer, spike): both must go at the small cut-off
-        regions = [[], list(small[(0, 0)]), [0, -1, 1], list(small[(0, 1)]), list(outer), list(spike), list(small[(1, 0)]), list(small[(1, 1)])]
+        regions = [[], list(small[(0, 0)]), [0, -1, 1], list(small[(0, 1)]), list(outer), list(spike), list(small[(1, 0)]), list(small[(1, 1)]), list(sliver)]
         if ctx.mode == "sym":
             from fvc import npmodel
 
@@ -233,8 +235,8 @@ def o19_7(tier):
             for cid, c in ctx.list_of(cs):
                 cyc = [ctx.get(w, "id") for w in ctx.list_of(ctx.get(c, "vertices"))]
                 ctx.ensure(len(cyc) in (3, 4) and len(set(cyc)) == len(cyc), f"{label}: cell {cid} has its corners, none repeated")
-        four = [small[(0, 0)], small[(0, 1)], small[(1, 0)], small[(1, 1)]]
+        four = [small[(0, 0)], small[(0, 1)], small[(1, 0)], small[(1, 1)], sliver]
         run(4.3, four, "cut-off 4.3")
-        run(100.0, [small[(0, 0)], small[(0, 1)], outer, spike, small[(1, 0)], small[(1, 1)]], "cut-off 100 afterwards")
+        run(100.0, [small[(0, 0)], small[(0, 1)], outer, spike, small[(1, 0)], small[(1, 1)], sliver], "cut-off 100 afterwards")
         run(4.3, four, "cut-off 4.3 again")
     return [("2x2-rectangles+empty+unbounded+oversized,concrete-spacing", mk(False))]
